@@ -58,7 +58,9 @@ STATS = None
 
 
 def profile_bytes(server, year, variant=0):
-    return F.profile_response({"BANKMSGSET": server["url"]}, F.dt_tag(year), code=0, extra_finame="Bank " + "x" * (7 * variant) + str(year))
+    # the sign-on response carries a DTPROFUP of its own that differs from the profile's (odd years: later, even: earlier)
+    so = F.dt_tag(year + 40, 6, 15) if year % 2 else F.dt_tag(max(1995, year - 40), 6, 15)
+    return F.profile_response({"BANKMSGSET": server["url"]}, F.dt_tag(year), code=0, extra_finame="Bank " + "x" * (7 * variant) + str(year), sonrs_dtprofup=so)
 
 
 def new_client(server):
